@@ -3,6 +3,7 @@ import random
 
 import core
 import engcorr
+import engine
 import engoracles
 import jesse_env
 import purecorr
@@ -172,7 +173,29 @@ class C10(core.Check):
         from jesse.store import store
         rng = random.Random(self.seed * 104729 + 10)
         thr = 0.00015
-        for sess in self.engine_sessions(self.budget(180, 1200, boost), rng):
+        sessions = self.engine_sessions(self.budget(180, 1200, boost), rng)
+        # two trading routes that react to EACH OTHER's position events (on_route_* hooks re-declare the stop-loss of an
+        # open position): the first route enters with MARKET orders at its own step, so its events reach the second route
+        # at every possible moment of that route's own cycle.  Real sessions only (the model knows no such hook).
+        extra = 0
+        while extra < self.budget(40, 300, boost):
+            s2 = engcorr.gen_session(rng, max_n=120, rich=True, tight=rng.random() < 0.4, vol=rng.choice([4, 8]), lengths=[30, 60, 120],
+                                     kinds=('futures',), data=False)
+            if len(s2['routes']) != 2:
+                continue
+            for j, (sym, _) in enumerate(s2['routes']):
+                s2['scripts'][sym] = engine.gen_script(rng, spot=False, rich=True, force={'kind': 'market'} if j == 0 else None,
+                                                       route_hooks=True)
+            # the first route opens with a MARKET order every other step and closes it at the next one through a bracket
+            # inside the 0.015 % band (two MARKET exits): a stream of open / close events, all produced in its own step
+            first = s2['routes'][0][0]
+            s2['scripts'][first]['long'] = {'every': 2, 'phase': rng.randrange(2), 'rows': [(rng.choice([0.5, 1.0]), 0.0)]}
+            s2['scripts'][first].pop('short', None)
+            s2['scripts'][first]['update'] = {'every': 1, 'sl': 0.0, 'tp': 0.125 / 16, 'inplace': False}
+            s2['route_hooks'] = True
+            sessions.append(s2)
+            extra += 1
+        for sess in sessions:
             cands = engcorr.candles_of(sess)
             problems = []
             state = {}
@@ -194,7 +217,9 @@ class C10(core.Check):
                 act = [o for o in store.orders.get_active_orders(strategy.exchange, strategy.symbol) if o.is_active]
                 if strategy.position.is_open:
                     for via, decl in (('stop-loss', strategy.stop_loss), ('take-profit', strategy.take_profit)):
-                        rows = [] if decl is None else [list(map(float, r)) for r in decl]
+                        # (a declaration the strategy layer has not processed yet is still the raw tuple / list)
+                        import numpy as np
+                        rows = [] if decl is None else [list(map(float, r)) for r in np.array(decl, dtype=float).reshape(-1, 2)]
                         free = list(rows)
                         for o in act:
                             if o.submitted_via != via:
@@ -234,7 +259,7 @@ class C10(core.Check):
                         problems.append(('entry-cancelled-without-yes', strategy.index, {'cancelled': [[o.type, o.qty, o.price] for o in cancelled]}))
             ev, tr, err = engcorr.run_real(sess, cands, extra_observer=observer)
             res.seen((sess['candle_seed'], sess['fast']), any(e[0] == 'CANCEL' for e in tr.events))
-            res.count('engine-sessions:' + ('fast' if sess['fast'] else 'step'))
+            res.count('engine-sessions:' + ('fast' if sess['fast'] else 'step') + (':route-hooks' if sess.get('route_hooks') else ''))
             desc = {'session': {kk: sess[kk] for kk in ('kind', 'fee', 'leverage', 'isolated', 'fast', 'routes', 'droutes', 'n',
                                                         'scripts', 'candle_seed', 'vol', 'gap_prob')}}
             if problems:
